@@ -13,7 +13,7 @@ ENG_NOTE = ('Serial transactions in one process (tx_lock) - statement-level race
 ENG_TECH = 'TLA+ property formulas (EngineProps) evaluated by TLC on every step of recorded runs of the real engine under controlled schedules'
 ENG_MODEL = (' Model level: MistralEngine.tla (one action per atomic step of the code: start, post-commit operations, message deliveries, '
              'scheduler jobs of BOTH scheduler implementations (default: capture / invoke / delete per job; legacy: poll pass), the pause command and '
-             'its backlog, operator pause / resume / stop, redeliveries, retry / wait-before / wait-after / timeout policies, with-items tasks (count / capacity accounting, concurrency, accepted flags, one accounting job per reported item), clock) is model-checked exhaustively by TLC on the '
+             'its backlog, operator pause / resume / stop, redeliveries, retry (continue-on / break-on) / wait-before / wait-after / timeout / pause-before / fail-on policies, operator rerun / skip, with-items tasks (count / capacity accounting, concurrency, accepted flags, one accounting job per reported item), clock) is model-checked exhaustively by TLC on the '
              'shape catalogue with the stated operator / redelivery budgets, the property formulas holding modulo the named known-finding '
              'situations; every recorded run inside the model\'s scope is validated strictly as a behaviour of the model (EngineTrace.tla, '
              'unlogged choices inferred by TLC) - a run that is not accepted is reported as DIVERGENCE; in the other direction TLC-simulated behaviours of the model and its '
@@ -116,7 +116,7 @@ CHECKS = {
             'Programs whose tasks carry retry (with and without continue-on / break-on), wait-before, wait-after, timeout (literal or expression) and fail-on policies, per-attempt '
             'outcomes from the oracle, under a virtual clock (one third of the runs lets timers fire ahead of pending results); TLC judges '
             'AttemptBound, StopAtFirstSuccess, RetryStopsWhenTold / RetryExhausted (continue-on / break-on), FinalIffLast, DelayRespected, WaitBeforeRespected, WaitAfterRespected, TimeoutJudged, '
-            'FailOnApplied over whole recorded runs (creation and completion times of every action execution).' + ENG_MODEL + ' Budget: the policy catalogue (retry count 2 on plain and join tasks, wait-before x timeout, wait-after, wait-after + retry, timeout + retry) under both schedulers, all orders of timer jobs and results.',
+            'FailOnApplied over whole recorded runs (creation and completion times of every action execution).' + ENG_MODEL + ' Budget: the policy catalogue (retry count 2 on plain and join tasks, continue-on / break-on, wait-before x timeout, wait-after, wait-after + retry, timeout + retry, pause-before, fail-on) under both schedulers, all orders of timer jobs and results; pause and resume at any two points of nine of the shapes (FailOnAppliedM, PauseBeforeM, StartOnceM ...).',
             ENG_NOTE, ENG_TECH_M, '0, 5, 7-C08'),
     'C12': ('engine', 'model_checking',
             'Programs run to rest, then an ERROR task is rerun (reset on/off), skipped or rerun twice with a new outcome and run to rest '
